@@ -28,6 +28,10 @@ PAYLOADS = {
     # with the other separator
     "dir-sep": [(("a\\b",), 20000), (("a", "b"), P0 + 1), (("d", "x"), 5),
                 (("a b",), 9), (("a", " b"), 11)],
+    # mostly-zero files with data islands on 4 KiB pages: stored densely at
+    # the original location, with holes in the copy
+    "dir-holes": [(("a",), 100000, "holesA"), (("d", "x"), 70000, "holesB"),
+                  (("e",), 5)],
     "dir-eq": [(("caf\u00e9.bin",), 20000), (("cafe\u0301.bin",), P0 + 1),
                (("d", "f01"), 5), (("d", "f1"), 7)],
 }
@@ -155,9 +159,9 @@ class InfoHashCheck:
         os.makedirs(os.path.join(os.path.dirname(L), "elsewhere"),
                     exist_ok=True)
         os.makedirs(os.path.join(L, "x"))
-        files = [(rel, world.content(seed, i, n))
-                 for i, (rel, n) in enumerate(PAYLOADS[pk])]
-        world.materialize(files, L)
+        files = [(e[0], world.content(seed, e[2] if len(e) > 2 else i, e[1]))
+                 for i, e in enumerate(PAYLOADS[pk])]
+        world.materialize(files, L, sparse=vals["location"] == "copy")
         rp = resolve_path(vals["spelling"], vals["cwd"], L, pk)
         if rp is None:
             return {"skip": "infeasible spelling x cwd", "vals": vals}
